@@ -38,13 +38,25 @@ def parts(tier):
         Part('continuous', schedgen.histories(max_ops=40 if not T else 80, big=T), quick=170, thorough=1000),
         Part('lfs_mem_heavy', schedgen.histories(max_ops=25 if not T else 50, big=T, heavy=True, app=False), quick=60, thorough=300),
         Part('gpu_shares_blocked_gpus', schedgen.histories(max_ops=20 if not T else 40, big=T, app=False, gpu_focus=True), quick=50, thorough=300),
+        Part('jsrun_gpu_shares', schedgen.histories(max_ops=20 if not T else 40, big=T, cls='jsrun', app=False,
+                                                    gpu_focus=True), quick=40, thorough=300),
         Part('jsrun', schedgen.histories(max_ops=30 if not T else 60, big=T, cls='jsrun', app=False), quick=40, thorough=200),
         Part('nodelist', nodelistsim.nl_cases(), quick=250, thorough=2500),
         Part('nodelist_numa', nodelistsim.numa_cases(), quick=80, thorough=600),
+        Part('nodelist_concurrent', nodelistsim.mt_cases(), quick=150, thorough=1500),
     ]
 
 
 def run_case(case):
+    if case.get('kind') == 'nodelist_mt':
+        P, s = nodelistsim.run_nodelist_mt(case)
+        res = CaseResult()
+        for p, sig, msg in P:
+            if p == PID:
+                res.fail(sig, msg)
+        res.nontrivial = s['granted'] >= 2
+        res.label('nodelist:concurrent_placements')
+        return res
     if case.get('kind') == 'nodelist':
         P, s = nodelistsim.run_nodelist(case)
         res = CaseResult()
